@@ -20,10 +20,12 @@ from lib import terms
 from lib.terms import g_term, g_list, g_pair, g_nat
 
 ID = 'C03'
-IMPORTS = ['Unify.Unify', 'Unify.UnifyGen', 'Engine.RunGen']
+IMPORTS = ['Unify.Unify', 'Unify.UnifyGen', 'Lang.Ast', 'Engine.RunGen', 'Engine.RunMachine']
+MODEL_NEEDS_IMPL = True
 THEOREMS = ['C03_unify_gen_restores', 'C03_unify_gen_close_restores', 'C03_unify_gen_exhaust_restores',
             'C03_unify_gen_yields_at_most_once', 'C03_unify_gen_matches_unify', 'C03_frame_next_restores',
-            'C03_throw_restores', 'C03_query_restores', 'C03_rerun_same']
+            'C03_throw_restores', 'C03_query_restores', 'C03_rerun_same', 'C03_consumer_throw_restores', 'C03_any_consumer_restores',
+            'C03_compiled_query_restores', 'C03_bounded_consumer_restores', 'C03_machine_refines_irsem', 'C03_machine_refines_irsem_fuel', 'C03_machine_refines_facts', 'C03_queryF_nofacts']
 RULE = ("kind 'gen': non-trivial if the generator bound >= 2 cells or ran under >= 1 stacked unification, and the "
         "operation sequence abandons it at a yield (close/del after a yielding next) or resumes it. "
         "kind 'prog': non-trivial if the query made >= 2 bindings (>= 2 Variables bound at some answer) and "
@@ -85,9 +87,84 @@ def _g_target(t):
         return '(TgArrays %s %s)' % (g_list([g_term(x) for x in t[1]]), g_list([g_term(x) for x in t[2]]))
     return '(TgVar %s %s)' % (g_nat(t[1]), g_term(t[2]))
 
-def model_expr(case):
-    if case['kind'] != 'gen':
+MODEL_STEPS = 1500      # programs whose reference run needs more predicate calls are left to the oracle
+MODEL_FUEL = 60000
+MODEL_DEPTH = 400     # above what CPython reaches before RecursionError (about 330 nested queries)
+
+def _s_term(t):
+    """term of the program AST -> Lang.Ast.sterm (Gallina); lists as './2 and '[]' (the same terms at run time)"""
+    k = t[0]
+    if k == 'a':
+        return '(SAtom %s)' % terms.g_str(t[1])
+    if k == 'i':
+        return '(SNum %s)' % terms.g_str(str(t[1]))
+    if k == 'V':
+        return '(SVar %s)' % terms.g_str(t[1])
+    return '(SFun %s %s)' % (terms.g_str(t[1]), g_list([_s_term(a) for a in t[2]]))
+
+def _goal_term(g):
+    assert g[0] == 'call', g
+    return ['a', g[1]] if not g[2] else ['f', g[1], g[2]]
+
+def _s_body(g):
+    k = g[0]
+    call = lambda name, args: '(BCall %s %s)' % (terms.g_str(name), g_list([_s_term(a) for a in args]))
+    if k == 'call':
+        return call(g[1], g[2])
+    if k in ('=', '\\='):
+        return call(k, [g[1], g[2]])
+    if k == 'ite':
+        return '(BOr (BIf %s %s) %s)' % (_s_body(g[1]), _s_body(g[2]), _s_body(g[3]))
+    if k == 'or':
+        return '(BOr %s %s)' % (_s_body(g[1]), _s_body(g[2]))
+    if k == 'and':
+        r = _s_body(g[1][-1])
+        for x in reversed(g[1][:-1]):
+            r = '(BAnd %s %s)' % (_s_body(x), r)
+        return r
+    if k == 'not':
+        return '(BNot %s)' % _s_body(g[1])
+    if k == 'cut':
+        return 'BCut'
+    if k == 'once':
+        return call('once', [_goal_term(g[1])])
+    if k == 'findall':
+        return call('findall', [g[1], _goal_term(g[2]), g[3]])
+    if k == 'calln':
+        return call('call', [g[1]] + g[2])
+    if k == 'pyp':
+        return call('pyp', [g[1]])
+    raise ValueError(g)
+
+def _s_program(clauses):
+    return g_list(['{| c_name := %s; c_args := %s; c_body := %s |}' % (
+        terms.g_str(c[0]), g_list([_s_term(a) for a in c[1]]), 'BTrue' if c[2] is None else _s_body(c[2])) for c in clauses])
+
+def _fact_nvars(args):
+    m = 0
+    for a in args:
+        for v in terms.term_vars(a):
+            m = max(m, v + 1)
+    return m
+
+def _model_prog(case, io):
+    if not isinstance(io, dict) or case.get('reclimit') or io.get('steps', 10 ** 9) > MODEL_STEPS:
         return None
+    if io['refend'].startswith('raised') or io['spec'] is None:
+        return None
+    db = {}
+    for name, args in case['dyn']:
+        db.setdefault((name, len(args)), []).append(g_pair(g_nat(_fact_nvars(args)), g_list([g_term(a) for a in args])))
+    gdb = g_list(['(%s, %s, %s)' % (terms.g_str(n), g_nat(ar), g_list(fs)) for (n, ar), fs in db.items()])
+    stk = g_list([g_pair(g_term(a), g_term(b)) for a, b in case['stack']])
+    name, qargs = case['query']
+    return '(run_machine %s %s %s %s %s %s %s %s %s %s)' % (
+        g_nat(MODEL_FUEL), g_nat(MODEL_DEPTH), _s_program(LIBAST + case['clauses']), gdb, stk, terms.g_str(name),
+        g_list([g_term(a) for a in qargs]), g_nat(case['nvars']), g_nat(MAXANS), g_nat(io['k']))
+
+def model_expr(case, io=None):
+    if case['kind'] != 'gen':
+        return _model_prog(case, io)
     stk = g_list([g_pair(g_term(a), g_term(b)) for a, b in case['stack']])
     ops = g_list(['ONext' if o == 'next' else 'OClose' for o in case['ops']])
     return '(run_gen 200 %s %s %s %s)' % (stk, _g_target(case['target']), ops, g_nat(case['nvars']))
@@ -359,6 +436,8 @@ def _impl_prog(case):
         return sum(1 for v in W if v._is_bound)
 
     heldbad = [0]
+    nbs = []
+    bvals = []
     def drive(mode, k, j):
         """returns (answers, end, maxbound)"""
         state['calls'] = 0
@@ -366,8 +445,17 @@ def _impl_prog(case):
         answers = []
         mb = [0]
         base = nbound()
+        nbs[:] = []
+        bvals[:] = []
+        base_ids = set(id(v) for v in W if v._is_bound)
         def body():
             answers.append(answer())
+            nbs.append(nbound() - base)
+            if len(bvals) < 12:
+                try:
+                    bvals.append(sorted(_canon([T.read(v)], 0)[0] for v in list(W) if v._is_bound and id(v) not in base_ids))
+                except RecursionError:
+                    bvals.append(None)       # a cyclic binding somewhere (unspecified): not compared
             mb[0] = max(mb[0], nbound() - base)
         end = 'abandoned'
         if mode in ('exhaust', 'pyraise'):
@@ -449,6 +537,9 @@ def _impl_prog(case):
     snap0 = _snapshot(T, nv)
     # reference run on the same engine and variables: exhaustive, nothing raises
     ref, refend, refmb = drive('exhaust', 0, None)
+    refnb = list(nbs)
+    refvals = list(bvals)
+    refsteps = steps[0]
     bad0 = check_world(before)
     k = min(case['k'], len(ref))
     lim = sys.getrecursionlimit()
@@ -484,7 +575,7 @@ def _impl_prog(case):
             spec1 = list(c03_ref.answers(LIBAST + case['clauses'], case['dyn'], case['stack'], case['query'], nv, case['j'], MAXANS, show))
     except c03_ref.Cyclic:
         spec, spec1 = None, None
-    return {'ref': ref, 'refend': refend, 'bad0': bad0, 'k': k, 'spec': spec, 'spec1': spec1, 'heldbad': heldbad[0],
+    return {'ref': ref, 'refend': refend, 'refnb': refnb, 'refvals': refvals, 'steps': refsteps, 'bad0': bad0, 'k': k, 'spec': spec, 'spec1': spec1, 'heldbad': heldbad[0],
             'run1': [a1, e1], 'bad1': bad1, 'snap_restored': snap1 == snap0,
             'run2': [a2, e2], 'bad2': bad2, 'run3': [a3, e3], 'bad3': bad3,
             'leaked': leaked, 'maxbound': max(refmb, mb1), 'nworld': len(W)}
@@ -574,9 +665,66 @@ def impl(case):
     except _Budget:
         return ['budget']
 
+def _compare_prog_strict(case, io, mo, canon):
+    if mo is None or not isinstance(io, dict):
+        return None
+    if mo[0] in ('oof', 'stack', 'cyc'):
+        return None              # counted in the distribution; the oracle still applies
+    if mo[0] == 'stuck':
+        return 'the model compiler rejects a program that the implementation compiles'
+    nv = case['nvars']
+    fin0, answers, end, fin, nk, endk, finclose, finthrow = mo[1:]
+    m_answers = [canon([terms.obs_term(t) for t in a[0]], nv) for a in answers]
+    m_sizes = [a[1] for a in answers]
+    m_end = {'more': 'abandoned', 'done': 'done', 'raised': 'raised'}[end[0]]
+    i_end = io['refend'].split(':')[0]
+    ref = io['ref'] if canon is _canon else [_anon_shown(a) for a in io['ref']]
+    refvals = io['refvals'] if canon is _canon else [None if v is None else sorted(_anon_shown(v)) for v in io['refvals']]
+    if m_answers != ref:
+        n = min(len(m_answers), len(ref))
+        i = next((i for i in range(n) if m_answers[i] != ref[i]), n)
+        return 'answer %d of the exhaustive run differs from the frame machine (model: %r, observed: %r)' % (
+            i, m_answers[i] if i < len(m_answers) else 'no more answers', ref[i] if i < len(ref) else 'no more answers')
+    if m_end != i_end:
+        return 'the exhaustive run ends differently (model: %s, observed: %s)' % (m_end, io['refend'])
+    m_vals = [sorted(canon([terms.obs_term(t)], 0)[0] for t in a[2]) for a in answers][:len(io['refvals'])]
+    m_vals = [m if o is not None else None for m, o in zip(m_vals, refvals)]
+    if m_sizes == io['refnb'] and m_vals != refvals:
+        i = next(i for i in range(len(m_vals)) if m_vals[i] != refvals[i])
+        return 'the values of the Variables bound at answer %d differ from the frame machine (model: %r, observed: %r)' % (i, m_vals[i], refvals[i])
+    if m_sizes != io['refnb']:
+        return 'number of bound Variables at the answers differs from the frame machine (model: %r, observed: %r)' % (m_sizes, io['refnb'])
+    if m_end != 'abandoned' and fin != fin0:
+        return 'model: heap not restored at the end (cannot happen: theorem)'
+    if finclose != fin0 or finthrow != fin0:
+        return 'model: heap not restored after close/throw (cannot happen: theorem)'
+    if nk != io['k']:
+        return 'model and implementation disagree on the number of answers available'
+    return None
+
+import re as _re
+def _anon_shown(strs):
+    """shown terms with every variable name replaced by _ (variable identity ignored)"""
+    return [_re.sub(r'_G[0-9]+', '_', x) for x in strs]
+
+def _canon_anon(ts, nv):
+    return _anon_shown(_canon(ts, nv))
+
+def _compare_prog(case, io, mo):
+    r = _compare_prog_strict(case, io, mo, _canon)
+    if r is not None and 'findall' in _src(case):
+        # Known limit of the cell naming of Sem/Machine.v (and hence of the frame machine, which is proved equal
+        # to it): a findall result that contains an unbound variable CREATED INSIDE THE GOAL.  Such a variable is
+        # one object for all answers below the choice point it was created before, and different objects
+        # otherwise; the model's counter naming cannot tell (it renames them apart per answer).  For programs
+        # with findall a disagreement that disappears when variable identity is ignored is not reported.
+        if _compare_prog_strict(case, io, mo, _canon_anon) is None:
+            return None
+    return r
+
 def compare(case, io, mo):
     if case['kind'] != 'gen':
-        return None
+        return _compare_prog(case, io, mo)
     if mo[0] == 'oof':
         return 'model ran out of fuel (harness problem)'
     if mo[0] == 'stackmismatch':
@@ -628,7 +776,9 @@ def oracle(case, io):
         return '%d variables still bound at the end' % io['leaked']
     ref = io['ref']
     a1, e1 = io['run1']
-    if a1 != ref[:len(a1)]:
+    # the reference run stops after MAXANS answers (refend 'abandoned'); evaluate_bounded has no such stop
+    ncommon = min(len(a1), len(ref))
+    if a1[:ncommon] != ref[:ncommon] or (len(a1) > len(ref) and io['refend'] != 'abandoned'):
         return 'answers of the run under test are not a prefix of the reference answers'
     if not case.get('reclimit'):
         if io['run2'] != io['run1']:
